@@ -55,7 +55,7 @@ impl Property for C20 {
         "C20"
     }
     fn rule(&self) -> String {
-        "histories of 0..4 earlier resolutions on one tx3_cardano::Compiler instance (templates 'pay' with 0..4 extra outputs, with and without min_utxo, with stores that make them succeed or fail) followed by a target template (min_utxo on random output indices, an optional output that is dropped from the body in a third of the cases, incl. indices beyond the outputs of the previous transaction); the same target is resolved on a fresh, identically configured instance against the same single-UTxO store. Oracle: outcome (payload bytes + hash + fee, or error kind, or panic site) on the used instance = outcome on the fresh one; latest_tx_body before the target is logged as the candidate leak. Non-trivial: history length >= 1 and the target uses min_utxo; distinct = distinct (history, target, pparams).".into()
+        "histories of 0..4 earlier uses of one tx3_cardano::Compiler instance - resolutions through resolve_tx (templates 'pay' with 0..4 extra outputs, with and without min_utxo, with stores that make them succeed, fail at once, or fail in a later pass just below the minimum), direct compile() calls and direct evaluations of compiler operators - followed by a target template (min_utxo on random output indices, an optional output that is dropped from the body in a third of the cases, incl. indices beyond the outputs of the previous transaction); the same target is resolved on a fresh, identically configured instance against the same single-UTxO store. Oracle: outcome (payload bytes + hash + fee, or error kind, or panic site) on the used instance = outcome on the fresh one; latest_tx_body before the target is logged as the candidate leak. Non-trivial: history length >= 1 and the target uses min_utxo; distinct = distinct (history, target, pparams).".into()
     }
     fn assumptions(&self) -> Vec<String> {
         vec!["single-UTxO input blocks and the same store contents for both runs, so that hash order cannot differ between them".into()]
@@ -67,7 +67,7 @@ impl Property for C20 {
         }
     }
     fn required_features(&self, _tier: Tier) -> Vec<String> {
-        ["history/len-0", "history/len-4", "history/with-failure", "target/min_utxo", "target/index-beyond-previous-outputs", "target/min_utxo+dropped-optional-output", "target/tight-balance", "outcome/ok", "state/latest_tx_body-set"].iter().map(|s| s.to_string()).collect()
+        ["history/len-0", "history/len-4", "history/with-failure", "history/direct-compile", "history/direct-compiler-ops", "history/failure-just-below-the-minimum", "target/min_utxo", "target/index-beyond-previous-outputs", "target/min_utxo+dropped-optional-output", "target/tight-balance", "outcome/ok", "state/latest_tx_body-set"].iter().map(|s| s.to_string()).collect()
     }
     fn run_case(&self, ctx: &mut Ctx, phase: &str, idx: u64, rng: &mut Rng) {
         let pp = PP { mainnet: rng.bool(), a: *rng.pick(&[44u64, 1, 100, 0]), b: *rng.pick(&[155_381u64, 0]), coins_per_utxo_byte: if rng.chance(1, 3) { rng.range(1, 40_000) as u64 } else { *rng.pick(&[4310u64, 1, 34482, 289, 290, 291]) }, extra_fees: *rng.pick(&[None, Some(0), Some(123_456)]), cost_models: vec![0, 1, 2], cost_salt: 0 };
@@ -81,7 +81,48 @@ impl Property for C20 {
             let src = print_program(&program(&shape), Layout::plain());
             let Ok(lowered) = front(&src, "pay") else { continue };
             let q = rng.range(1_000_000, 3_000_000) as i128;
-            let lovelace = if rng.chance(1, 4) { rng.range(0, 1_000_000) as i128 } else { 50_000_000 + rng.range(0, 50_000_000) as i128 };
+            // the instance is not only used through resolve_tx: one step in four compiles a transaction (or only
+            // evaluates its compiler operators) directly on it
+            if rng.chance(1, 4) {
+                use tx3_tir::compile::Compiler as _;
+                use tx3_tir::reduce::{apply_args, apply_fees, apply_inputs, reduce};
+                use tx3_tir::Node as _;
+                let only_ops = rng.chance(1, 3);
+                let utxos: std::collections::HashSet<tx3_tir::model::core::Utxo> = single_utxo_store(80_000_000, 0, 0x50 + h as u8).into_iter().collect();
+                let r = crate::panics::catch(|| -> Result<usize, String> {
+                    let t = apply_args(AnyTir::V1Beta0(lowered.clone()), &args(q)).map_err(|e| e.to_string())?;
+                    let t = apply_inputs(t, &std::collections::BTreeMap::from([("source".to_string(), utxos.clone())])).map_err(|e| e.to_string())?;
+                    let t = apply_fees(t, 300_000).map_err(|e| e.to_string())?;
+                    let t = t.apply(&mut used).map_err(|e| e.to_string())?;
+                    if only_ops {
+                        return Ok(0);
+                    }
+                    let t = reduce(t).map_err(|e| e.to_string())?;
+                    used.compile(&t).map(|c| c.payload.len()).map_err(|e| e.to_string())
+                });
+                ctx.count(if only_ops { "history/direct-compiler-ops" } else { "history/direct-compile" });
+                history.push(json!({"step": if only_ops { "direct Node::apply(compiler)" } else { "direct compile" }, "extra_outputs": shape.extra_outputs, "min_utxo_on": shape.min_utxo_on, "gift": shape.gift.map(|g| g.to_string()), "ok": matches!(r, Ok(Ok(_)))}));
+                continue;
+            }
+            let mut lovelace = if rng.chance(1, 4) { rng.range(0, 1_000_000) as i128 } else { 50_000_000 + rng.range(0, 50_000_000) as i128 };
+            if rng.chance(1, 4) {
+                // a resolution that fails late: just below the smallest UTxO with which a fresh instance succeeds
+                // (the first pass, at fee 0, still finds its input; a later pass does not)
+                let ok_with = |l: i128| matches!(resolve_once(&mut env::compiler(&pp), &lowered, q, l, 0x40 + h as u8), Outcome::Ok { .. });
+                let (mut lo, mut hi) = (0i128, 200_000_000i128);
+                if ok_with(hi) {
+                    while hi - lo > 1 {
+                        let mid = (lo + hi) / 2;
+                        if ok_with(mid) {
+                            hi = mid;
+                        } else {
+                            lo = mid;
+                        }
+                    }
+                    lovelace = hi - *rng.pick(&[1i128, 100, 10_000, 100_000]);
+                    ctx.count("history/failure-just-below-the-minimum");
+                }
+            }
             let o = resolve_once(&mut used, &lowered, q, lovelace, 0x40 + h as u8);
             if !matches!(o, Outcome::Ok { .. }) {
                 ctx.count("history/with-failure");
